@@ -13,7 +13,10 @@ PROPS["C16"] = prop(
     "subscribed first, on a P2P topic and on 'me'): the model links nothing and unlinks nothing for them. "
     "The histories also hold collection runs whose store transaction fails at commit (verifmem Plan{FailMethod: FileDeleteUnused, AtCommit}: the adapter returns the selected "
     "locations together with the error and keeps the records), as an operation and, in half of the histories, right before the closing run: a failed run removes nothing (every "
-    "record, the bytes and the download of every upload are still there) and store.Files.DeleteUnused reports the error",
+    "record, the bytes and the download of every upload are still there) and store.Files.DeleteUnused reports the error. "
+    "A third of the publishes meet a store failure at the first call of one of the writes a publish makes (verifmem Plan{FailNth: 1, FailMethod: TopicUpdateOnMessage | MessageSave | "
+    "SubsUpdate (the sender's read marks) | FileLinkAttachments}): whatever the reply, a message found in the store afterwards lists its attachments and protects them from every "
+    "later collection run, a publish which was refused and stored nothing links nothing (only a failure of the link write itself leaves the uploads 'may or may not be kept')",
     "gate unit: a case is 2-7 requests against one store; non-trivial = at least one request accepted (upload stored or download served) and at least one refused in the same case; "
     "download unit: 1-4 uploads (over HTTP, failed midway, in flight) and 1-10 odd urls; non-trivial = at least one completed upload served byte-exact and at least one request "
     "refused (odd url, failed or in-flight upload); links unit: a history of 4-24 operations followed by a closing collection run (in half of the histories preceded by a run "
